@@ -21,6 +21,7 @@ import (
 	"sort"
 	"strings"
 	"sync"
+	"syscall"
 	"time"
 
 	"verif/sim"
@@ -300,6 +301,18 @@ func (w *World) Run(dir string, opts *RunOpts, name string, args ...string) (out
 	defer cancel()
 	cmd := exec.CommandContext(ctx, name, args...)
 	cmd.Dir = dir
+	// The watchdog must end the whole process tree (git, the shell that runs
+	// the filter, git-lfs) and must not wait for a surviving descendant that
+	// still holds the output pipe.
+	cmd.SysProcAttr = &syscall.SysProcAttr{Setpgid: true}
+	cmd.Cancel = func() error {
+		if cmd.Process != nil {
+			syscall.Kill(-cmd.Process.Pid, syscall.SIGKILL)
+			return cmd.Process.Kill()
+		}
+		return nil
+	}
+	cmd.WaitDelay = 5 * time.Second
 	var extra []string
 	if opts != nil {
 		extra = opts.Env
@@ -312,6 +325,10 @@ func (w *World) Run(dir string, opts *RunOpts, name string, args ...string) (out
 	cmd.Stdout = &buf
 	cmd.Stderr = &buf
 	err := cmd.Run()
+	if cmd.Process != nil {
+		// nothing of this command's process group outlives it
+		syscall.Kill(-cmd.Process.Pid, syscall.SIGKILL)
+	}
 	out = buf.String()
 	killed := false
 	if err != nil {
